@@ -9,6 +9,7 @@ package patch
 
 import (
 	"bytes"
+	"fmt"
 	"go/ast"
 	"go/format"
 	"go/parser"
@@ -84,6 +85,17 @@ type VerifTrace struct {
 	ProcErr   string
 }
 
+// verifFormat prints the file; like Apply, a panic of the printer on a
+// malformed tree is reported as an error.
+func verifFormat(out *bytes.Buffer, fset *token.FileSet, f *ast.File) (err error) {
+	defer func() {
+		if rec := recover(); rec != nil {
+			err = fmt.Errorf("internal error: %v", rec)
+		}
+	}()
+	return format.Node(out, fset, f)
+}
+
 func verifComments(tf *token.File, groups []*ast.CommentGroup) []VerifComment {
 	var out []VerifComment
 	for _, g := range groups {
@@ -154,7 +166,7 @@ loop:
 	tr.Out = fout
 
 	var out bytes.Buffer
-	if err := format.Node(&out, fset, fout); err != nil {
+	if err := verifFormat(&out, fset, fout); err != nil {
 		tr.FormatErr = err.Error()
 		return tr
 	}
